@@ -124,6 +124,9 @@ func main() {
 		}
 		g := fqlast.NewGen(rng, 1+rng.Intn(depth))
 		p := g.Program()
+		if rng.Intn(2) == 0 {
+			m.Distribution["P:injected ')' '?' shapes"] += surface.InjectQ(p, rng, 1+rng.Intn(3))
+		}
 		surface.Sanitize(p)
 		if rng.Intn(3) == 0 {
 			surface.ReplaceStrings(p, rng)
@@ -226,6 +229,18 @@ func main() {
 	for _, t := range []string{"FOR i IN [1,2] FILTER (i > 1) RETURN i", "FOR i IN [2,1] SORT (i) RETURN i", "FOR i IN [1,2] FILTER (i > 1) AND true RETURN i",
 		"FOR i IN [2,1] SORT (i) DESC RETURN i", "FOR i IN [1,2] FILTER ((i > 1)) RETURN (i)"} {
 		ls = append(ls, listed{t, true, "clause-paren"})
+	}
+	// '?' shapes: random expressions over operands ending in ')', error
+	// operators, shorthand and full ternaries, unary operators and nesting,
+	// and one random single-token deletion of each (the reference parser
+	// decides by trying every reading of the '?' tokens)
+	for i := 0; i < nProbe; i++ {
+		t := "RETURN " + surface.QText(rng, 1+rng.Intn(3))
+		ls = append(ls, listed{t, false, "question-shape"})
+		if toks := surface.Texts(surface.Lex(t)); len(toks) > 2 {
+			k := 1 + rng.Intn(len(toks)-1)
+			ls = append(ls, listed{strings.Join(append(append([]string{}, toks[:k]...), toks[k+1:]...), " "), false, "question-shape"})
+		}
 	}
 	// random lexical probes: RETURN / LET followed by a short string over a lexer-relevant alphabet
 	alphabet := []string{"a", "B", "x", "0", "1", "9", "_", ".", "e", "E", "+", "-", `"`, "'", `\`, "`", "´", "/", "*", ":", "@", "?", "!", "=", "~",
